@@ -323,6 +323,7 @@ class TLSpectrum(np.ma.masked_array):
         ns = self.shape[0] - 1
         norm = self.sum()
         Dbin, r2bin = numerics.LD_per_bin(ns)
+        r2bin.folded = self.folded
         return (self*r2bin).sum()/self.sum()
 
     def fold(self):
